@@ -38,8 +38,12 @@ def check_C01(tier, seed):
     pats = ["P222", "P231"] if tier == "quick" else ["P222", "P231", "P122", "P322", "P2222", "P2132"]
     md = {p: (3 if len(p) <= 4 else 4) for p in pats}
     _run_family(out, "arith", pats, "Prop_C01", {0, 1} if tier == "quick" else {0, 1, 2}, md)
+    from .checks_traces import run_traces
+    run_traces(out, "C01", tier)
     out.exhaustive = True
     out.assumptions += [
+        "direction B: random programs over 4-5 dimensions recorded from the real library and validated by TLC against the contract "
+        "(Trace_Workspace.tla); integer values",
         "symbolic run: numpy object arrays of formal polynomials pass through flodym unchanged in meaning; "
         "each vector is additionally run on float64 arrays (C and Fortran memory layout)",
         "minimum/maximum/abs/sign are decided concolically (entry-wise, both orders per entry via several valuations); "
@@ -56,8 +60,11 @@ def check_C07(tier, seed):
     pats = ["P222", "P231"] if tier == "quick" else ["P222", "P231", "P122", "P322", "P2222", "P2132"]
     md = {p: (3 if len(p) <= 4 else 4) for p in pats}
     _run_family(out, "reduce", pats, "Prop_C07", {0, 1} if tier == "quick" else {0, 1, 2, 3}, md)
+    from .checks_traces import run_traces
+    run_traces(out, "C07", tier)
     out.exhaustive = True
     out.assumptions += [
+        "direction B: recorded random programs validated by TLC (Trace_Workspace.tla)",
         "linear operations (sum_to, sum_over, cumsum, cast_to) decided symbolically for all values; "
         "get_shares_over decided on exact rationals for small integer arrays (entries with zero total unspecified)",
         "bounded universe: <= 4 dimensions of length <= 3; every ordered subset enumerated for kept/summed/added dims",
